@@ -6,7 +6,7 @@ from C05 import canon
 ID = 'C14'
 RULE = ('split cases (start, end, bin): exhaustive over end <= 12, bin <= 14 (all start <= end), plus random large '
         'records with few pieces, bin in {1, divisors, non-divisors, length, length+1, u64::MAX-1, u64::MAX}, start = 0, '
-        'end = u64::MAX; outputs: the split_by_len and rsplit_by_len sequences; non-trivial = at least 2 pieces and a '
+        'end = u64::MAX; splithead cases: records with up to 2^64 - 1 pieces of which only the first k are taken; outputs: the split_by_len and rsplit_by_len sequences; non-trivial = at least 2 pieces and a '
         'shorter last piece; distinct by case text')
 UNIQUE_NOTE = 'split_tiles + tiling_unique: the tiling is unique'
 EXHAUSTIVE = {'quick': True, 'thorough': True}
@@ -40,6 +40,14 @@ def gen(rng, tier):
         else:
             s = rng.randint(0, 100); e = s + rng.randint(0, 60); b = rng.randint(1, 70)
         yield Case(sx.dump(['split', s, e, b]), nt(s, e, b), 'random')
+    # records with far too many pieces to enumerate (up to 2^64 - 1 of them): only the first k pieces of both iterators
+    # are taken, which a lazy implementation delivers at once
+    for _ in range(60 if tier == 'quick' else 1500):
+        e = rng.choice([2**62, 2**63, W64, W64 - 1, 2**40 + 7, 10**12, 2**32 + 1])
+        s = rng.choice([0, 0, 1, 5, 2**31])
+        b = rng.choice([1, 1, 2, 3, 7, 1000, 4097])
+        k = rng.choice([0, 1, 2, 3, 5, 8])
+        yield Case(sx.dump(['splithead', s, e, b, k]), k >= 2, 'huge-piece-count')
 
 
 def agree(case, impl, model):
